@@ -248,6 +248,11 @@ theorem sample_in_range_lyman (u T : ℝ) (ttab : ℕ → ℝ) (nT : ℕ) (freq 
     freq 0 ≤ lymanSample u T ttab nT freq cdf nF ∧ lymanSample u T ttab nT freq cdf nF ≤ freq (nF - 1) :=
   lymanSample_mem u T ttab nT freq cdf nF hnT hnF ht hf
 
+example (u T : ℝ) : (0 : ℝ) ≤ lymanSample u T (fun i => (i : ℝ)) 3 (fun i => (i : ℝ)) (fun _ i => (i : ℝ) / 3) 4 := by
+  have := (sample_in_range_lyman u T (fun i => (i : ℝ)) 3 (fun i => (i : ℝ)) (fun _ i => (i : ℝ) / 3) 4
+    (by norm_num) (by norm_num) (fun i _ => by push_cast; linarith) (fun i j hij _ => by exact_mod_cast hij)).1
+  simpa using this
+
 /-- **Uniform and monochromatic spectra in range**. -/
 theorem sample_in_range_uniform_mono (u f : ℝ) (h0 : 0 ≤ u) (h1 : u < 1) :
     ((3.289e15 : ℝ) ≤ uniformSample u ∧ uniformSample u < 4 * 3.289e15) ∧ monoSample f u = f :=
@@ -263,5 +268,10 @@ theorem sample_follows_table_cdf_partial (u : ℝ) (freq cdf : ℕ → ℝ) (n :
     let i := locate u cdf n
     cdf i + (linearSample u freq cdf n - freq i) / (freq (i + 1) - freq i) * (cdf (i + 1) - cdf i) = u :=
   linearSample_inverts u freq cdf n hn hf h0 h1
+
+example : True := by
+  have := sample_follows_table_cdf_partial (1 / 2) (fun i => (i : ℝ)) (fun i => (i : ℝ) / 2) 3 (by norm_num)
+    (fun i _ => by push_cast; linarith) (by norm_num) (by norm_num)
+  trivial
 
 end CMacVerif.C18
